@@ -65,6 +65,12 @@ func (m *MDP) DecodeFromBytes(data []byte, df gopacket.DecodeFeedback) error {
 			break
 		}
 		t := data[offset]
+		// Every TLV but the end marker has a length byte followed by that
+		// many bytes of value: make sure they are all there.
+		if t != MdpTlvEnd && (offset+2 > m.Length || offset+2+int(data[offset+1]) > m.Length) {
+			df.SetTruncated()
+			return fmt.Errorf("MDP TLV type %d at offset %d too long for remaining %d bytes", t, offset, m.Length-offset)
+		}
 		switch t {
 		case MdpTlvDeviceInfo:
 			offset += 2
